@@ -6,7 +6,7 @@ import random
 from hypothesis import strategies as st
 
 from .. import wire
-from ..engine import Eval, Failure, Guarded, Target, guard
+from ..engine import Eval, Failure, Guarded, Target, collecting, guard
 from ..values import BPAdapter, norm, snap_bp, snap_ref, to_ref
 from . import _common as cm
 from ._corpus import corpus
@@ -34,11 +34,11 @@ def targets(ctx):
     schema = c.schema
     adapter = BPAdapter(schema)
 
-    def clauses(name, tree, route, ops, xseed, stats=None):
+    @collecting
+    def clauses(out, name, tree, route, ops, xseed, stats=None):
         cls = c.bp(name)
         mi = schema.msg(f"ks.{name}")
         want = norm(schema, mi, tree)
-        out = []
         refmsg = to_ref(schema, c.ref, mi.full_name, tree)
         ref_bytes = refmsg.SerializeToString(deterministic=True)
         # bp -> ref
@@ -75,15 +75,11 @@ def targets(ctx):
                     got = norm(schema, mi, guard("snapshot_re", snap_bp, schema, mi, m3))
                     if got != want:
                         out.append(("reencoded_to_bp", f"ops={sorted(k for k in st_ if k not in ('accepted',))} got={got!r} want={want!r} enc={e.hex()[:240]}"))
-        return out
 
     def fails_clause(route, ops, xseed, clause):
         def f(mi, tree):
             name = mi.full_name.split(".")[-1]
-            try:
-                return any(cl == clause for cl, _ in clauses(name, tree, route, ops, xseed))
-            except Guarded as g:
-                return clause == f"raises_{g.where}_{type(g.exc).__name__}"
+            return any(cl == clause for cl, _ in clauses(name, tree, route, ops, xseed))
 
         return f
 
@@ -92,19 +88,17 @@ def targets(ctx):
         ops, xseed = case.get("ops", []), case.get("xseed", 0)
         mi = schema.msg(f"ks.{name}")
         stats = {}
-        try:
-            found = clauses(name, tree, route, ops, xseed, stats)
-        except Guarded as g:
-            found = [(f"raises_{g.where}_{type(g.exc).__name__}", str(g))]
+        found = clauses(name, tree, route, ops, xseed, stats)
         fails = []
         for clause, detail in found:
-            where = cm.localise(schema, mi, tree, fails_clause(route, ops, xseed, clause))
+            wheres = cm.culprits(schema, mi, tree, fails_clause(route, ops, xseed, clause))
             opsig = ""
             if clause in ("reencoded_to_bp",) or clause.startswith("raises_parse_reencoded") or clause.startswith("raises_snapshot_re"):
                 # which single transformation is enough?
                 single = [o for o in ops if fails_clause(route, [o], xseed, clause)(mi, tree)]
                 opsig = "|ops:" + ("+".join(sorted(single)) if single else "combo:" + "+".join(sorted(ops)))
-            fails.append(Failure(clause, f"{clause}|{where}{opsig}", f"msg={name} route={route} ops={ops} xseed={xseed} tree={tree!r} :: {detail}"))
+            for where in wheres:
+                fails.append(Failure(clause, f"{clause}|{where}{opsig}", f"msg={name} route={route} ops={ops} xseed={xseed} tree={tree!r} :: {detail}"))
         labs = cm.labels_for(schema, mi, tree) + [f"xf:{k}" for k in stats]
         if stats.get("discarded_by_reference"):
             ctx.extra["reencodings_discarded_by_reference"] = ctx.extra.get("reencodings_discarded_by_reference", 0) + 1
